@@ -47,21 +47,21 @@ def getRexPrefix (s : Instr) (m r : Operand) : Instr × Nat :=
     let rex := if band rm c_reg64 || band r.reg c_reg64 then rex ||| c_rex_w else rex
     (s, if band rex c_REX_W_RXB then c_rex_ ||| rex else 0)
 
-/-- `get_reg(instrc, &instrc->opd[mi], r)`; `r` is the C `int` as 32-bit two's complement. -/
-def getReg (s : Instr) (mi : Nat) (r : Nat) : R Instr :=
-  let m := s.opd mi
-  -- sib without base
-  let (s, m) :=
-    if m.reg == c_reg_none && m.index != c_reg_none then
-      let (s, m) :=
-        if band s.opt c_NASM_SIB_NO_BASE then
-          if s.sibDisp == c_SIB then (s, { m with reg := m.index, index := c_reg_none })
-          else if s.sibDisp == c_SIB2 then ({ s with sibDisp := c_SIB }, { m with reg := m.index })
-          else ({ s with noBase := true }, { m with reg := c_NO_BASE })
+/-- first part of `get_reg`: a memory operand with index but without base register
+    ("sib with no base") is rewritten, depending on NASM_SIB_NO_BASE and the scale -/
+def noBaseAdjust (s : Instr) (m : Operand) : Instr × Operand :=
+  if m.reg == c_reg_none && m.index != c_reg_none then
+    let (s, m) :=
+      if band s.opt c_NASM_SIB_NO_BASE then
+        if s.sibDisp == c_SIB then (s, { m with reg := m.index, index := c_reg_none })
+        else if s.sibDisp == c_SIB2 then ({ s with sibDisp := c_SIB }, { m with reg := m.index })
         else ({ s with noBase := true }, { m with reg := c_NO_BASE })
-      if m.reg == c_NO_BASE then ({ s with modDisp := 0 }, m) else (s, m)
-    else (s, m)
-  let s := s.setOpd mi m
+      else ({ s with noBase := true }, { m with reg := c_NO_BASE })
+    if m.reg == c_NO_BASE then ({ s with modDisp := 0 }, m) else (s, m)
+  else (s, m)
+
+/-- second part of `get_reg`: ModRM (and SIB) from the adjusted operand -/
+def getRegFinish (s : Instr) (m : Operand) (r : Nat) : R Instr :=
   if m.index == c_reg_none then
     .ok { s with hex := { s.hex with
             reg := s.modDisp ||| ((r &&& c_VALUE_MASK) <<< 3) ||| (m.reg &&& c_VALUE_MASK) } }
@@ -73,5 +73,10 @@ def getReg (s : Instr) (mi : Nat) (r : Nat) : R Instr :=
       hex := { s.hex with
         sib := s.sibDisp ||| ((m.index &&& c_VALUE_MASK) <<< 3) ||| (m.reg &&& c_VALUE_MASK)
         reg := s.modDisp ||| ((r &&& c_VALUE_MASK) <<< 3) ||| c_rex_r } }
+
+/-- `get_reg(instrc, &instrc->opd[mi], r)`; `r` is the C `int` as 32-bit two's complement. -/
+def getReg (s : Instr) (mi : Nat) (r : Nat) : R Instr :=
+  let sm := noBaseAdjust s (s.opd mi)
+  getRegFinish (sm.1.setOpd mi sm.2) sm.2 r
 
 end AL.Impl
